@@ -36,6 +36,12 @@ CLAIMED = {
   text="For each of the 24 DestinationSSRC methods (16 packet types, 8 XR block types) the returned slice is abstracted on the SSA to a concatenation of segments whose element provenance, order, positions and total length are checked symbolically for every list length at once, and compared with the table written from the property statement. Decides: which SSRC fields appear, in which order, exactly once each, with no gap/overlap and a result length equal to the elements written. An implementation outside the recognised idioms fails as undecided (accepted risk, stated in DESIGN.md). Does not decide the 'same after a round trip' clause (runtime equality; C02).",
   note="Trusted: go/ssa, the spec table c10Spec, struct field names as anchors.",
   design="DESIGN.md §2 C10"),
+ "C17": dict(
+  level="other",
+  technique="static analysis: the C01 abstract interpreter applied to every String method, stringify and formatField with unconstrained receivers; dominator-guard table for reflect calls",
+  text="Every String() method of the package (21), stringify and formatField are analysed with an unconstrained receiver (all field values, all list lengths): each index, slice, pointer/interface dereference, division, type assertion (comma-ok only), wrapper nil check and loop must be proved safe/terminating at the instruction in every calling context (about 490 obligations; an undecided one fails). Reflection in formatField is decided by a guard table (each reflect call with a precondition is dominated by Kind/CanInterface/IsValid tests of the same Value). fmt.Sprintf is modelled as total. It decides 'never panics / terminates' for every receiver value, which no finite set of String() tests can; it does not look at the text produced.",
+  note="Trusted: go/ssa, checker/num, totality of fmt/strings, the reflect guard table. Assumes non-nil receivers and non-nil list elements (decoded or well-formed values); 64-bit int.",
+  design="DESIGN.md §2 C17"),
 }
 
 NA = {
